@@ -76,8 +76,17 @@ impl<'a, TPrinter: Printer> FileExecutor<'a, TPrinter> {
         let config = self.execution_engine.execution_config();
         self.execution_engine.execute_joined_table(self.running.clone())?;
 
+        #[cfg(feature="verif_hooks")]
+        let mut verif_line_index = 0usize;
+
         for reader in std::mem::take(&mut self.readers).into_iter() {
             for line in reader.lines() {
+                #[cfg(feature="verif_hooks")]
+                {
+                    crate::verif_hooks::batch_line(crate::verif_hooks::BatchLoop::Main, verif_line_index, &self.running);
+                    verif_line_index += 1;
+                }
+
                 if !self.running.load(Ordering::SeqCst) {
                     break;
                 }
